@@ -53,9 +53,10 @@ type N struct {
 
 // Program = method definitions + main statements.
 type Program struct {
-	Methods []*N
-	Main    []*N
-	UsesTr  bool
+	Methods  []*N
+	Main     []*N
+	UsesTr   bool
+	UsesDeep bool `json:",omitempty"`
 	// number of catch clauses generated under a known-finding restriction
 	Restricted int `json:",omitempty"`
 }
